@@ -231,12 +231,20 @@ def main():
         ext_pairs = [("big(X) :- in(X), X > 1. out(X) :- big(X).\n", "small(X) :- in(X), X <= 1. out(X) :- in(X), not small(X).\n"),
                      ("out(X) :- in(X), X > 1.\n", "small(X) :- in(X), X <= 1. out(X) :- in(X), not small(X).\n"),
                      ("big(X) :- in(X), X > 1. out(X) :- big(X).\n", "out(X) :- in(X), not in(X+1).\n")]
-        for pa, pb in ext_pairs:
+        UG2 = "input: in/1. output: out/1. output: q/1.\n"
+        # one of the two programs never mentions the output predicate q/1
+        ext_pairs += [("out(X) :- in(X).\n", "out(X) :- in(X). q(X) :- in(X), X > 1.\n", UG2),
+                      ("out(X) :- in(X). q(1).\n", "out(X) :- in(X), not not in(X).\n", UG2)]
+        for pair in ext_pairs:
+            pa, pb = pair[0], pair[1]
             for flags in [[], ["--decomposition", "independent"], ["--no-simplify"], ["--no-eq-break"]]:
                 d = scratch("c20x_")
                 try:
                     open(os.path.join(d, "a.lp"), "w").write(pa); open(os.path.join(d, "b.lp"), "w").write(pb)
-                    shutil.copy(os.path.join(flat, "t.ug"), os.path.join(d, "t.ug"))
+                    if len(pair) > 2:
+                        open(os.path.join(d, "t.ug"), "w").write(pair[2])
+                    else:
+                        shutil.copy(os.path.join(flat, "t.ug"), os.path.join(d, "t.ug"))
                     _, p1, _ = problems_of(anthem, ["--equivalence", "external"] + flags + ["a.lp", "b.lp", "t.ug"], d)
                     _, p2, _ = problems_of(anthem, ["--equivalence", "external"] + flags + ["b.lp", "a.lp", "t.ug"], d)
                 finally:
